@@ -47,7 +47,9 @@ PURE_FUNCS = {'isinstance', 'issubclass', 'len', 'bool', 'int', 'float', 'str', 
 PURE_METHODS = {'done', 'cancelled', 'is_initialized', 'is_ready', 'is_finalized', 'empty', 'qsize',
                 'get', 'keys', 'values', 'items', 'startswith', 'endswith', 'when', 'time',
                 'has_method', 'is_set', 'getblocks', 'intersection', 'union', 'difference', 'copy',
-                'isoweekday', 'total_seconds', 'lower', 'upper', 'strip', 'split', 'exception'}
+                'isoweekday', 'total_seconds', 'lower', 'upper', 'strip', 'split', 'exception',
+                'get_running_loop', 'get_event_loop', 'current_task', 'get_circuit', 'removeprefix',
+                'partition', 'get_state', 'as_list', 'input_signature'}
 
 
 def _is_pure_call(c: ast.Call) -> bool:
@@ -62,7 +64,7 @@ def _is_pure_call(c: ast.Call) -> bool:
 def _pure_expr(e: ast.AST) -> bool:
     for x in ast.walk(e):
         if isinstance(x, (ast.Await, ast.Yield, ast.YieldFrom, ast.NamedExpr, ast.Lambda,
-                          ast.GeneratorExp, ast.Starred)):
+                          ast.GeneratorExp)):
             return False        # (a generator expression is lazy: when it runs is not where it is written)
         if isinstance(x, ast.Call) and not _is_pure_call(x):
             return False
